@@ -549,8 +549,8 @@ def impl_run_trace(case, cfgfile, sim_layered):
             o.survey, o._model, o._layered, o.data = FSurvey(), FModel(), tr.sim_layered, FData()
             return o, 'a\nb'
 
-        def clean(self, what):
-            tr.ev.append(['CleanComputed'])
+        def clean(self, what='<default>'):
+            tr.ev.append(['Clean', what])
 
         model = property(lambda s: s._model,
                          lambda s, v: (tr.ev.append(['SetModel']) if v is not EXP else None,
@@ -672,6 +672,8 @@ def model_trace(t):
             ev.append(['SaveOut', c[1], sorted(c[2])])
         elif k == 'CSaveSim':
             ev.append(['SaveSim', c[1]])
+        elif k == 'CClean':
+            ev.append(['Clean', c[1]])
         else:
             ev.append([k[1:]])
     return {'err': err, 'events': ev, 'zeros': sorted(zeros) if err is None else None}
@@ -1288,6 +1290,147 @@ def _scen_mode(e, name):
 MODES = ['save', 'load', 'clean', 'clean_gopts', 'cache']
 
 
+# ------------------------------------------------- multi-step CLI sequences
+SEQ_KINDS = ['load', 'load_clean', 'cache', 'cache_clean']
+_FLAG = {'forward': '-f', 'misfit': '-m', 'gradient': '-g'}
+SEQ_CFG = ('[simulation]\ngridding = same\nmax_workers = 1\nreceiver_interpolation = linear\n'
+           '[solver_opts]\nmaxit = 2\nplain = True\n[noise_opts]\nadd_noise = False\n')
+
+
+def _scen_sequence(e, fn1, kind, fn2, fn3):
+    """A history through the real entry point, every step compared exactly with
+    what the Python API gives for the survey and model the step works on:
+
+      1. emg3d -{fn1} --model model.h5 --save simQ.h5          (real run)
+      2. emg3d -{fn2} --load|--cache simQ.h5 [--clean --model model2.h5]
+      3. emg3d -{fn3} --load simQ.h5                            (fn3 may be None)
+
+    Reference of step 1 and of every --clean step = a FRESH
+    Simulation(survey, model, same options): the survey with the observed data
+    the step finds (survey file / stored simulation) and the model the step
+    works on (the documented meaning of --clean is 'replace model and all
+    computed data of loaded simulation').  Reference of a step without --clean
+    = Simulation.from_file(stored simulation) and the same calls through the
+    API (stored fields legitimately serve as starting guess of the solver).
+    None = holds, else a hit."""
+    emg3d, np = e.emg3d, e.np
+    d = e.dir
+    simf = os.path.join(d, 'simQ.h5')
+    if os.path.exists(simf):
+        os.remove(simf)
+    sim_kw = dict(gridding='same', max_workers=1, receiver_interpolation='linear',
+                  solver_opts={'maxit': 2, 'plain': True}, verb=-1, tqdm_opts=False,
+                  name='emg3d CLI run')
+    tail = {'load': ['--load', 'simQ.h5'],
+            'load_clean': ['--load', 'simQ.h5', '--clean', '--model', 'model2.h5'],
+            'cache': ['--cache', 'simQ.h5'],
+            'cache_clean': ['--cache', 'simQ.h5', '--clean', '--model', 'model2.h5']}[kind]
+    steps = [(fn1, ['--model', 'model.h5', '--save', 'simQ.h5'], 'model')]
+    file_model = 'model'
+    steps.append((fn2, tail, 'model2' if kind.endswith('clean') else file_model))
+    if kind == 'cache_clean':
+        file_model = 'model2'
+    if fn3:
+        steps.append((fn3, ['--load', 'simQ.h5'], file_model))
+    scen = f"sequence:{fn1}:{kind}:{fn2}:{fn3 or '-'}"
+    done = []
+    try:
+        for i, (fn, extra, mname) in enumerate(steps, 1):
+            args = ['--path', d, '--survey', 'survey.h5', _FLAG[fn], '--output', 'emg3d_out.h5'] + extra
+            done.append(args)
+            with warnings.catch_warnings(), contextlib.redirect_stderr(_io.StringIO()), \
+                    contextlib.redirect_stdout(_io.StringIO()):
+                warnings.simplefilter('ignore')
+                if i == 1:
+                    survey = emg3d.load(os.path.join(d, 'survey.h5'), verb=0)['survey']
+                else:
+                    survey = emg3d.Simulation.from_file(simf, verb=0).survey.copy()
+                    for k in list(survey.data.keys()):
+                        if k != 'observed':
+                            del survey.data[k]
+                model = emg3d.load(os.path.join(d, mname + '.h5'), verb=0)['model']
+                try:
+                    if i == 1 or '--clean' in extra:
+                        # nothing of an earlier model may survive: fresh simulation
+                        ref = emg3d.Simulation(survey=survey, model=model, **sim_kw)
+                    else:
+                        # no --clean: the stored simulation continues (stored fields are the
+                        # starting guess of the solver): the same calls through the API
+                        ref = emg3d.Simulation.from_file(simf, verb=0)
+                    if fn == 'forward':
+                        ref.compute(observed=True, add_noise=False)
+                        b = {'data': ref.data.observed}
+                    else:
+                        ref.compute()
+                        b = {'data': ref.data.synthetic, 'misfit': ref.misfit,
+                             'n_observations': ref.survey.count}
+                        if fn == 'gradient':
+                            b['gradient'] = ref.gradient
+                except Exception as ex:
+                    b = {'err': type(ex).__name__, 'msg': str(ex)[:300]}
+            a = e.cli(SEQ_CFG, args)
+            e.n += 1
+            ok, why = e.same(a, b)
+            if not ok:
+                return {'signature': f"C18: CLI history {scen}: step {i} differs from "
+                                     f"Simulation(survey, model) through the API",
+                        'scenario': scen, 'config_text': SEQ_CFG, 'cli_steps': done,
+                        'failing_step': i, 'model_of_step': mname + '.h5',
+                        'observed': f'step {i} ({fn}): ' + why + _detail(np, a, b),
+                        'cli': _outcome(a), 'api': _outcome(b),
+                        'required': 'every step writes the data/misfit/gradient the API gives for '
+                                    'the same survey and the model the step works on'}
+    except Exception as ex:                                   # harness problem, not a finding
+        return {'harness_error': repr(ex)[:300], 'scenario': scen}
+    return None
+
+
+def _detail(np, a, b):
+    if 'err' in a or 'err' in b:
+        return ''
+    out = []
+    for k in ('misfit', 'gradient', 'data'):
+        if k in a and k in b:
+            x, y = np.asarray(a[k]), np.asarray(b[k])
+            if x.shape == y.shape and not np.array_equal(x, y, equal_nan=True):
+                if x.shape == ():
+                    out.append(f'{k}: CLI {float(x)!r} / API {float(y)!r}')
+                else:
+                    den = np.nanmax(np.abs(y)) or 1.0
+                    out.append(f'{k}: max rel. diff {float(np.nanmax(np.abs(x - y)) / den):.3e}')
+    return ' [' + '; '.join(out) + ']' if out else ''
+
+
+def seq_product():
+    fns = ['forward', 'misfit', 'gradient']
+    out = []
+    for fn1 in fns:
+        for kind in SEQ_KINDS:
+            for fn2 in fns:
+                if kind.startswith('cache'):
+                    out += [(fn1, kind, fn2, fn3) for fn3 in fns]
+                else:
+                    out.append((fn1, kind, fn2, None))
+    return out
+
+
+SEQ_QUICK = [('misfit', 'cache_clean', 'gradient', 'misfit'),
+             ('gradient', 'load_clean', 'gradient', None)]
+
+
+def run_sequences(ctx, e, seqs, sink):
+    """sink(hit) for every failing sequence; returns number run."""
+    seen = set()
+    for sq in seqs:
+        h = _scen_sequence(e, *sq)
+        if h and 'harness_error' in h:
+            ctx.notes.append('sequence harness error: ' + str(h))
+        elif h and h['signature'] not in seen:
+            seen.add(h['signature'])
+            sink(h)
+    return len(seqs)
+
+
 def not_accepted(T):
     """Parser entries whose (translated) key the routed API function rejects --
     the python twin of Proofs.Cli.entry_accepted, used to aim the searcher."""
@@ -1345,6 +1488,12 @@ def e2e_sample(ctx, dis, hist, samples):
             elif h:
                 dis.append({'what': 'end-to-end mode: ' + h['observed'], 'case': h,
                             'signature': h['signature']})
+        seqs = SEQ_QUICK + [ctx.rng.choice(seq_product())]
+        if ctx.thorough:
+            seqs += ctx.rng.sample(seq_product(), 6)
+        hist['e2e:sequence'] = run_sequences(
+            ctx, e, seqs, lambda h: dis.append({'what': 'end-to-end sequence: ' + h['observed'],
+                                                'case': h, 'signature': h['signature']}))
         n = e.n
         hist.update({'e2e:' + k: v for k, v in e.stats.items()})
         samples.append({'e2e_keys': [list(p) for p in picks], 'precedence': PRECEDENCE, 'modes': MODES})
@@ -1420,6 +1569,12 @@ def search(ctx, broken):
             h = _scen_mode(e, nm)
             if h and 'harness_error' not in h:
                 hits.append(h)
+        # 2b. CLI histories: save -> load / cache (+clean with another model) -> load
+        allseq = seq_product()
+        seqs = allseq if ctx.thorough else SEQ_QUICK + rng.sample(allseq, 10)
+        nseq = run_sequences(ctx, e, seqs, hits.append)
+        ctx.notes.append(f'searcher: {nseq} multi-step CLI histories '
+                         f'({"full product" if ctx.thorough else "fixed two + 10 random"})')
         # 3. every documented key alone, then random combinations
         if ctx.thorough or not hits:
             keys = doc_keys(T)
@@ -1459,6 +1614,9 @@ def replay(ctx, payload):
             return _scen_unknown(e, name) is None
         if kind == 'mode':
             return _scen_mode(e, name) is None
+        if kind == 'sequence':
+            fn1, k2, fn2, fn3 = name.split(':')
+            return _scen_sequence(e, fn1, k2, fn2, None if fn3 == '-' else fn3) is None
         return False
     finally:
         e.close()
